@@ -145,6 +145,7 @@ def _concatenate(i, args, kw, node, fr):
     parts = i.concrete_items(args[0], node)
     if kw.get("axis", 0) not in (0, None):
         raise Unsupported("concatenate axis != 0", node)
+    parts = [(_array(i, [p], {}, node, fr) if isinstance(p, (PyList, tuple)) else p) for p in parts]
     if not parts or not all(isinstance(p, Arr) for p in parts):
         raise Unsupported("concatenate of non-arrays", node)
     for p in parts:
@@ -515,6 +516,11 @@ def _where(i, args, kw, node, fr):
 def _isin(i, args, kw, node, fr):
     a, vals = args[0], args[1]
     check_live(a, node)
+    if isinstance(vals, Arr):
+        check_live(vals, node)
+    if isinstance(a, Arr) and a.ndim == 2:
+        flat = FUNCS["numpy.ndarray.flatten"](i, [a], {}, node, fr)
+        return _isin(i, [flat, vals], kw, node, fr)
     j = z3.Int("j!isin")
     if isinstance(vals, Arr):
         n = to_z3(vals.shape[0], Int)
@@ -548,3 +554,97 @@ def _isnan(i, args, kw, node, fr):
     if is_z3(a) and a.sort() == Val:
         return _isn(a)
     return False
+
+
+# ------------------------------------------------------------------ reshape / flatten / axis reductions on bool
+class FlatV:
+    """row-major flattening of a 2-D array with a CONCRETE number of columns: element k = a[k // c][k % c]"""
+
+
+@model("numpy.ndarray.flatten", "flatten(): row-major 1-D copy (2-D input needs a concrete column count)")
+def _flatten(i, args, kw, node, fr):
+    a = args[0]
+    check_live(a, node)
+    if a.ndim == 1:
+        return copy_arr(i, a)
+    c = a.shape[1]
+    if not isinstance(c, int):
+        cs = z3.simplify(to_z3(c, Int))
+        if not z3.is_int_value(cs):
+            raise Unsupported("flatten of a 2-D array with a symbolic column count", node)
+        c = cs.as_long()
+    r = to_z3(a.shape[0], Int)
+    if c == 0:
+        return define1(i, 0, a.elem_sort, lambda k: z3.Select(z3.Select(a.data, 0), 0), "flat", a.dtype)
+    out = define1(i, r * c, a.elem_sort, lambda k: z3.Select(z3.Select(a.data, k / c), k % c), "flat", a.dtype)
+    # backward triggers: one per column
+    k = z3.Int("k!flb")
+    for col in range(c):
+        i.ctx.assume(z3.ForAll([k], z3.Implies(z3.And(k >= 0, k < r), z3.Select(out.data, k * c + col) == z3.Select(z3.Select(a.data, k), col)),
+                               patterns=[z3.Select(z3.Select(a.data, k), col)]))
+    out.flat_of = (a, c)
+    return out
+
+
+@model("numpy.ndarray.reshape", "reshape to the array's own shape: identity; 1-D of length r*c to (r, c) with concrete c: row-major")
+def _reshape(i, args, kw, node, fr):
+    a = args[0]
+    shape = args[1] if len(args) == 2 else tuple(args[1:])
+    if isinstance(shape, PyList):
+        shape = tuple(shape.items)
+    check_live(a, node)
+    if a.ndim == len(shape) and all((x is y) or (is_z3(x) and is_z3(y) and x.get_id() == y.get_id()) or (isinstance(x, int) and isinstance(y, int) and x == y)
+                                    for x, y in zip(a.shape, shape)):
+        return copy_arr(i, a)
+    if a.ndim == 1 and len(shape) == 2:
+        c = shape[1]
+        if not isinstance(c, int):
+            cs = z3.simplify(to_z3(c, Int))
+            if not z3.is_int_value(cs):
+                raise Unsupported("reshape to a symbolic column count", node)
+            c = cs.as_long()
+        r = to_z3(shape[0], Int)
+        i.safe("reshape", to_z3(a.shape[0], Int) == r * c, node)
+        out = define2(i, r, c, a.elem_sort, lambda rr, cc: z3.Select(a.data, rr * c + cc), "reshaped", a.dtype)
+        return out
+    raise Unsupported("reshape %r -> %r" % (a.shape, shape), node)
+
+
+def _all_any_axis(i, a, axis, node, is_all):
+    if a.ndim != 2 or axis not in (1, -1):
+        raise Unsupported("all/any with axis=%r" % (axis,), node)
+    c = a.shape[1]
+    if isinstance(c, int) or z3.is_int_value(z3.simplify(to_z3(c, Int))):
+        c = c if isinstance(c, int) else z3.simplify(to_z3(c, Int)).as_long()
+        f = (lambda k: z3.And(*[_tb(a.at(k, cc)) for cc in range(c)]) if c else z3.BoolVal(True)) if is_all else \
+            (lambda k: z3.Or(*[_tb(a.at(k, cc)) for cc in range(c)]) if c else z3.BoolVal(False))
+        return define1(i, a.shape[0], Bool, f, "rowall" if is_all else "rowany", alts=[lambda k: z3.Select(a.data, k)])
+    cc = z3.Int("c!ax")
+    cs = to_z3(c, Int)
+    f = (lambda k: z3.ForAll([cc], z3.Implies(z3.And(cc >= 0, cc < cs), _tb(a.at(k, cc))))) if is_all else \
+        (lambda k: z3.Exists([cc], z3.And(cc >= 0, cc < cs, _tb(a.at(k, cc)))))
+    return define1(i, a.shape[0], Bool, f, "rowall" if is_all else "rowany")
+
+
+_all_plain, _any_plain = FUNCS["numpy.all"], FUNCS["numpy.any"]
+
+
+def _all2(i, args, kw, node, fr):
+    axis = kw.get("axis", args[1] if len(args) > 1 else None)
+    if axis is not None:
+        return _all_any_axis(i, args[0], axis, node, True)
+    return _all_plain(i, args[:1], {}, node, fr)
+
+
+def _any2(i, args, kw, node, fr):
+    axis = kw.get("axis", args[1] if len(args) > 1 else None)
+    if axis is not None:
+        return _all_any_axis(i, args[0], axis, node, False)
+    return _any_plain(i, args[:1], {}, node, fr)
+
+
+for _k in ("numpy.all", "numpy.ndarray.all"):
+    FUNCS[_k] = _all2
+for _k in ("numpy.any", "numpy.ndarray.any"):
+    FUNCS[_k] = _any2
+TRUSTED["numpy.all/any(axis=1)"] = "row-wise conjunction / disjunction over the columns"
